@@ -11,6 +11,7 @@ import (
 	"io/fs"
 	"os"
 	"sync"
+	"syscall"
 	"time"
 
 	"github.com/fsnotify/fsnotify"
@@ -19,6 +20,19 @@ import (
 type VerifFS struct {
 	mu    sync.Mutex
 	Files map[string][]byte
+	// transient faults: the next Open fails once / the first Read of the file opened next fails once (EIO)
+	FailOpen, FailRead int
+}
+
+// Arm makes the next Open (open=true) or the first Read of the next opened file fail once.
+func (v *VerifFS) Arm(open bool) {
+	v.mu.Lock()
+	defer v.mu.Unlock()
+	if open {
+		v.FailOpen++
+	} else {
+		v.FailRead++
+	}
 }
 
 func (v *VerifFS) Set(p string, b []byte) {
@@ -39,7 +53,10 @@ func (v *VerifFS) Del(p string) {
 	delete(v.Files, p)
 }
 
-type verifFile struct{ r *bytes.Reader }
+type verifFile struct {
+	r    *bytes.Reader
+	fail bool
+}
 
 type verifStat struct{ sz int64 }
 
@@ -57,11 +74,26 @@ func (v *VerifFS) Open(p string) (statReadSeekCloser, error) {
 	if !ok {
 		return nil, os.ErrNotExist
 	}
-	return &verifFile{r: bytes.NewReader(append([]byte(nil), b...))}, nil
+	if v.FailOpen > 0 {
+		v.FailOpen--
+		return nil, syscall.EIO
+	}
+	f := &verifFile{r: bytes.NewReader(append([]byte(nil), b...))}
+	if v.FailRead > 0 {
+		v.FailRead--
+		f.fail = true
+	}
+	return f, nil
 }
 
-func (f *verifFile) Stat() (fs.FileInfo, error)         { return verifStat{f.r.Size()}, nil }
-func (f *verifFile) Read(p []byte) (int, error)         { return f.r.Read(p) }
+func (f *verifFile) Stat() (fs.FileInfo, error) { return verifStat{f.r.Size()}, nil }
+func (f *verifFile) Read(p []byte) (int, error) {
+	if f.fail {
+		f.fail = false
+		return 0, syscall.EIO
+	}
+	return f.r.Read(p)
+}
 func (f *verifFile) Seek(o int64, w int) (int64, error) { return f.r.Seek(o, w) }
 func (f *verifFile) Close() error                       { return nil }
 
